@@ -92,6 +92,31 @@ class NumpyProxy:
         ax = abs(x)
         return ax if y >= 0 else -ax
 
+    def _minmax(self, x, y, smaller):
+        def one(u, v):
+            if self._mode == 'sympy' and not (_is_sym(u) or _is_sym(v)):
+                return (self._sp.Min if smaller else self._sp.Max)(u, v)
+            if not (_is_sym(u) or _is_sym(v)):
+                return (_np.minimum if smaller else _np.maximum)(u, v)
+            return (u if u <= v else v) if smaller else (u if u >= v else v)
+        if isinstance(x, (_np.ndarray, list, tuple)) or isinstance(y, (_np.ndarray, list, tuple)):
+            xa, ya = _np.asarray(x, dtype=object), _np.asarray(y, dtype=object)
+            b = _np.broadcast(xa, ya)
+            out = _np.empty(b.shape, dtype=object)
+            out.flat = [one(u, v) for u, v in b]
+            return out
+        return one(x, y)
+
+    def minimum(self, x, y, *a, **k):
+        if self._mode != 'sympy' and not _has_sym((x, y)):
+            return _np.minimum(x, y, *a, **k)
+        return self._minmax(x, y, True)
+
+    def maximum(self, x, y, *a, **k):
+        if self._mode != 'sympy' and not _has_sym((x, y)):
+            return _np.maximum(x, y, *a, **k)
+        return self._minmax(x, y, False)
+
     def sign(self, x, *a, **k):
         def one(v):
             if self._mode == 'sympy' and not _is_sym(v):
